@@ -18,6 +18,8 @@
 -/
 import Kopf.Lemmas.C01_Inv2
 import Kopf.Lemmas.C01_Ord
+import Kopf.Lemmas.C01_Term
+import Kopf.Lemmas.C01_Frame
 namespace Kopf.C01
 
 variable {lim : Option Nat} {ls : List Label} {s : State}
@@ -125,23 +127,6 @@ theorem serial_step_timeout (h : Reach lim ls s) {w w' : Wid} {e e' : Ev} {s' : 
   step_cases ht
   grind [Pc.live_spawned, Pc.live_waiting, Pc.live_busy]
 
-/-- `settings.queueing.worker_limit` never changes. -/
-theorem limit_const (h : Reach lim ls s) : s.limit = lim := by
-  have key : ∀ (ls : List Label) (s0 s1 : State), run s0 ls = some s1 → s1.limit = s0.limit := by
-    intro ls
-    induction ls with
-    | nil => intro s0 s1 h; simp [run, runWith] at h; rw [h]
-    | cons l ls ih =>
-      intro s0 s1 h
-      simp only [run, runWith] at h
-      split at h
-      · rename_i s2 hs2
-        have h3 : s2.limit = s0.limit := by
-          cases l <;> step_cases hs2 <;> rfl
-        rw [← h3]; exact ih s2 s1 h
-      · cases h
-  exact key ls (init lim) s h
-
 /-- **The worker limit is respected**: never more than `worker_limit` worker tasks exist. -/
 theorem limit_respected (h : Reach lim ls s) (n : Nat) (hl : lim = some n) : s.running.length ≤ n := by
   have hi := inv_reach h
@@ -237,6 +222,81 @@ theorem quiescent_complete (h : Reach lim ls s) (hpos : ∀ n, lim = some n → 
   simp [backlogEvs, handEvs, hstr k, hhand, h2] at h1
   exact h1.symm
 
+/-- **No livelock: every internal segment makes progress.** `measure` (Model file) weighs the event in
+    the watcher's hand, every worker instance by its program counter, every queued item of a served
+    stream and the outstanding `scheduler.close()`; each label the system performs by itself — insert,
+    spawn, start, take, timeout-take, finish, fail, retire, EOS exit, done-callback, EOS put, close,
+    kill — strictly decreases it, in every reachable state. -/
+theorem internal_terminates (h : Reach lim ls s) {l : Label} {s' : State} (hl : l.internal = true)
+    (hs : step s l = some s') : measure s' < measure s :=
+  measure_step (inv_reach h) hl hs
+
+/-- Hence, without new arrivals and without an external cancellation, the system can perform at most
+    `measure s` more segments, whatever their interleaving. -/
+theorem internal_run_bounded (h : Reach lim ls s) :
+    ∀ (ls' : List Label) (s' : State), (∀ l ∈ ls', l.internal = true) → run s ls' = some s' →
+      ls'.length + measure s' ≤ measure s := by
+  have hi := inv_reach h
+  clear h
+  intro ls'
+  induction ls' generalizing s with
+  | nil => intro s' _ hr; simp [run, runWith] at hr; subst hr; simp
+  | cons l ls' ih =>
+    intro s' hint hr
+    simp only [run, runWith] at hr
+    split at hr
+    · rename_i s1 hs1
+      have h1 := measure_step hi (hint l (by simp)) hs1
+      have h2 := ih (inv_step hi hs1) s' (fun l' hl' => hint l' (by simp [hl'])) hr
+      simp; omega
+    · cases hr
+
+/-- … and it does get there: from every reachable state some finite internal run (of length ≤
+    `measure s`) ends in a quiescent state. With `internal_run_bounded` (EVERY internal run is that
+    short) this is termination of the internal activity under any scheduling. -/
+theorem reaches_quiescence (h : Reach lim ls s) :
+    ∃ ls' s', (∀ l ∈ ls', l.internal = true) ∧ run s ls' = some s' ∧ Quiescent step s' ∧
+      ls'.length ≤ measure s := by
+  have hi := inv_reach h
+  clear h
+  generalize hn : measure s = n
+  induction n using Nat.strongRecOn generalizing s with
+  | _ n ih =>
+    by_cases hq : Quiescent step s
+    · exact ⟨[], s, by simp, rfl, hq, by simp⟩
+    · have : ∃ l, l.internal = true ∧ step s l ≠ none := by
+        apply Classical.byContradiction
+        intro hne
+        apply hq
+        intro l hl
+        apply Classical.byContradiction
+        intro hs
+        exact hne ⟨l, hl, hs⟩
+      obtain ⟨l, hl, hs⟩ := this
+      cases hs1 : step s l with
+      | none => exact absurd hs1 hs
+      | some s1 =>
+        have hlt := measure_step hi hl hs1
+        obtain ⟨ls', s', hint, hr, hq', hlen⟩ := ih (measure s1) (hn ▸ hlt) (inv_step hi hs1) rfl
+        refine ⟨l :: ls', s', ?_, ?_, hq', ?_⟩
+        · intro l' hl'
+          rcases List.mem_cons.1 hl' with rfl | hl'
+          · exact hl
+          · exact hint l' hl'
+        · simp only [run, runWith, hs1]; exact hr
+        · simp; omega
+
+/-- **"… is still processed", as a statement about executions**: take any reachable state (e.g. the one
+    right after an event arrived at the very instant its idle worker retired), let the system run by
+    itself in ANY order until nothing is enabled (that takes at most `measure s` segments and always
+    happens, see above). If the watch is then still alive, every event that was ever delivered for a
+    non-failed key has been processed. -/
+theorem eventually_processed (h : Reach lim ls s) (hpos : ∀ n, lim = some n → 0 < n)
+    (ls' : List Label) (s' : State) (hr : run s ls' = some s') (hq : Quiescent step s')
+    (hc : s'.closing = false) (k : Key) (hf : s'.failedK k = false) :
+    s'.processed k = s'.arrived k :=
+  (quiescent_complete (ls := ls ++ ls') (run_append h hr) hpos hq hc).1 k hf
+
 /-- `worker_limit = 0` starves every object (why `quiescent_complete` asks for a positive limit). -/
 theorem limit_zero_starves :
     ∃ ls s, Reach (some 0) ls s ∧ Quiescent step s ∧ s.closing = false ∧ s.processed 0 ≠ s.arrived 0 := by
@@ -245,29 +305,7 @@ theorem limit_zero_starves :
   cases l <;> simp [Label.internal] at hl <;>
     simp [step, stepCore, init, upd_apply, canSpawn] <;> (try split) <;> simp_all
 
-/-- **Independence of keys, enabledness of `take`**: whether worker `w` can take event `e` depends only
-    on `w`'s own program counter, the backlog of `w`'s own key and the global `closed` flag —
-    never on any other key's stream, worker or processing. -/
-theorem independent_take (s₁ s₂ : State) (w : Wid) (e : Ev)
-    (hc : s₁.closed = s₂.closed) (hp : s₁.pc w = s₂.pc w) (hs : s₁.streams w.key = s₂.streams w.key) :
-    (step s₁ (.take w e)).isSome = (step s₂ (.take w e)).isSome := by
-  simp only [step, stepCore, hc, hp, hs]
-  split
-  · split
-    · split <;> rfl
-    · rfl
-  · rfl
-
-/-- … and of `finish`: only `w`'s own program counter (and `closed`). -/
-theorem independent_finish (s₁ s₂ : State) (w : Wid)
-    (hc : s₁.closed = s₂.closed) (hp : s₁.pc w = s₂.pc w) :
-    (step s₁ (.finish w)).isSome = (step s₂ (.finish w)).isSome := by
-  simp only [step, stepCore, hc, hp]
-  split
-  · split <;> rfl
-  · rfl
-
-/-- … and of `spawn`: a pending worker is started iff the pending queue is non-empty and
+/-- **Different objects wait for each other only through the worker limit.** A pending worker is started iff the pending queue is non-empty and
     `len(running) < limit` — "events of different objects never wait for each other beyond the
     configured worker limit". -/
 theorem independent_spawn (s : State) :
@@ -279,6 +317,15 @@ theorem independent_spawn (s : State) :
     cases hl : s.limit with
     | none => simp [step, stepCore, canSpawn, hq, hl]
     | some n => by_cases hn : s.running.length < n <;> simp [step, stepCore, canSpawn, hq, hl, hn]
+
+/-- **The pending queue is FIFO**: whatever segment runs, `Scheduler._pending_coros` stays as it was, or
+    gets a newly created worker appended at its END (`insert`), or loses its HEAD, which is spawned
+    (`spawn`). So a pending worker waits exactly for a free slot and for the workers enqueued before it —
+    which is within "the configured worker limit" — and is never overtaken. -/
+theorem pendingQ_fifo {s s' : State} {l : Label} (h : step s l = some s') :
+    s'.pendingQ = s.pendingQ ∨ (∃ w, s'.pendingQ = s.pendingQ ++ [w] ∧ s'.pc w = some .pending) ∨
+    (∃ w, s.pendingQ = w :: s'.pendingQ ∧ s'.pc w = some .spawned ∧ s'.running = s.running ++ [w]) := by
+  cases l <;> step_cases h <;> simp_all
 
 /-- **Frame**: a worker segment of key `k'` leaves every other key's component untouched — stream,
     histories, failure flag and the program counters of all other keys' instances. -/
@@ -294,13 +341,6 @@ theorem frame_other_key {s s' : State} {l : Label} {w : Wid} (k : Key) (hk : w.k
     intro w' h1 h2; rw [h2] at h1; exact hk h1
   rcases hl with rfl | rfl | rfl | rfl | rfl | rfl | rfl | rfl <;> step_cases h <;>
     simp_all
-
-/-- a state without instances, pending coroutines or an event in hand, watch alive: nothing internal
-    is enabled (for the real `step` and the broken variant alike) -/
-theorem quiescent_of_idle {b : Bool} {s : State} (hpc : ∀ w, s.pc w = none) (hq : s.pendingQ = [])
-    (hh : s.hand = none) (hc : s.closing = false) : Quiescent (stepCore b) s := by
-  intro l hl
-  cases l <;> simp [Label.internal] at hl <;> simp [stepCore, hpc, hq, hh, hc]
 
 /-- **Non-vacuity of the whole development**: split the worker's retirement into "see the empty
     backlog" and "`del streams[key]`" with one interleaving point in between (`stepBuggy`), and an event
@@ -343,6 +383,31 @@ example : ∃ s, Reach none [.miss 0 1, .insert, .spawn, .start ⟨0, 0⟩, .tak
 example : ∃ s, Reach none [.miss 0 1, .insert, .spawn, .start ⟨0, 0⟩, .take ⟨0, 0⟩ 1, .finish ⟨0, 0⟩, .arrive 0 2,
       .timeoutTake ⟨0, 0⟩ 2, .finish ⟨0, 0⟩] s ∧ s.processed 0 = [1, 2] ∧ s.arrived 0 = [1, 2] :=
   ⟨_, rfl, by decide, by decide⟩
+
+/-- `Quiescent step s` for a non-trivial reachable state of the REAL `step`: after the dangerous schedule
+    (retire, re-insert, second generation) nothing internal is enabled, and `quiescent_complete`'s
+    conclusion can be read off: both events processed, in order. -/
+example : ∃ s, Reach (some 1) [.miss 0 1, .insert, .spawn, .start ⟨0, 0⟩, .take ⟨0, 0⟩ 1, .finish ⟨0, 0⟩,
+      .retire ⟨0, 0⟩, .miss 0 2, .insert, .left ⟨0, 0⟩, .spawn, .start ⟨0, 1⟩, .take ⟨0, 1⟩ 2,
+      .finish ⟨0, 1⟩, .retire ⟨0, 1⟩, .left ⟨0, 1⟩] s ∧ Quiescent step s ∧ s.closing = false ∧
+      s.arrived 0 = [1, 2] ∧ s.processed 0 = [1, 2] := by
+  refine ⟨_, rfl, ?_, rfl, by decide, by decide⟩
+  apply quiescent_of_idle (b := false)
+  · intro w
+    by_cases h0 : w = ⟨0, 0⟩
+    · simp [h0, init]
+    · by_cases h1 : w = ⟨0, 1⟩ <;> simp [h0, h1, init]
+  · rfl
+  · rfl
+  · rfl
+
+/-- … and a quiescent state that is NOT idle (limit 0: a pending worker that can never be spawned) is
+    `limit_zero_starves`. A state in the middle of the work is not quiescent and its measure is positive: -/
+example : ∃ s, Reach (some 2) exampleTrace s ∧ measure s = 11 ∧ ¬ Quiescent step s := by
+  refine ⟨_, rfl, by decide, ?_⟩
+  intro hq
+  have := hq (.finish ⟨0, 0⟩) rfl
+  simp [step, stepCore, init] at this
 
 /-- in the model of the real code the window of `buggy_loses` does not exist: `retireCheck` is not a label
     of `step` at all. -/
